@@ -160,11 +160,10 @@ impl Property for C08 {
         let mut cfg = gen::scope_cfg(&mut cfg_rng);
         cfg.no_tracingmacros = real_state;
         let mut raw = RawGen::new(&mut cfg_rng);
-        let raw_share = if real_state {
-            0
-        } else {
-            [0u32, 25, 50, 75][cfg_rng.below(4)]
-        };
+        if real_state {
+            raw.restrict_to_pure();
+        }
+        let raw_share = [0u32, 25, 50, 75][cfg_rng.below(4)];
         let mut lines: Vec<Vec<Op>> = vec![];
         let mut meta: Vec<LineMeta> = vec![];
         {
@@ -232,7 +231,7 @@ impl Property for C08 {
             }
         }
         // Raw probe lines at the very end.
-        for _ in 0..(if real_state { 0 } else { 3 }) {
+        for _ in 0..3 {
             let mut ops = vec![];
             for _ in 0..3 {
                 if let Some(p) = raw.piece(&mut raw_rng) {
